@@ -412,6 +412,7 @@ func (f *flower) flowReturn(fn *ssa.Function, idx int, acc litSet, depth int, re
 	}
 	all := true
 	first := true
+	nImpossible := 0
 	var result litSet
 	for _, c := range callers {
 		val, ok := c.(ssa.Value)
@@ -472,6 +473,7 @@ func (f *flower) flowReturn(fn *ssa.Function, idx int, acc litSet, depth int, re
 				}
 			}
 			if impossible {
+				nImpossible++
 				continue // this return never reaches the use under that condition
 			}
 			g = g2
@@ -485,8 +487,8 @@ func (f *flower) flowReturn(fn *ssa.Function, idx int, acc litSet, depth int, re
 			result = result.intersect(g)
 		}
 	}
-	if !all {
-		return false, nil
+	if !all || (first && nImpossible > 0) {
+		return false, nil // (nothing reaches the reporter: every caller drops the value on this return)
 	}
 	return true, result
 }
